@@ -157,13 +157,34 @@ class Program:
             for s in u["statics"]:
                 self.statics.setdefault(s["name"], s)
         self._children = None
+        self.touched_bodies = set()   # names looked up by the rules of this run (evidence: what was analysed)
+        self.touched_consts = set()
+        self.inlining = False         # when set, body() splices helpers unknown to the rules into their callers (rules/inline.py)
+        self._inlined = {}
+        self.inlined_helpers = {}     # body name -> [helper names spliced in]
 
     # -- lookups (fail closed through Check.anchor, these return None when missing)
     def body(self, name):
+        b = self.bodies.get(name)
+        if b is not None:
+            self.touched_bodies.add(name)
+            if self.inlining:
+                if name not in self._inlined:
+                    import inline
+                    j, names = inline.inline_body(self, b)
+                    self._inlined[name] = Body(j, b.unit) if j is not None else b
+                    if names:
+                        self.inlined_helpers[name] = names
+                return self._inlined[name]
+        return b
+
+    def raw_body(self, name):
         return self.bodies.get(name)
 
     def const(self, name):
         c = self.consts.get(name)
+        if c is not None:
+            self.touched_consts.add(name)
         return None if c is None else c["value"]
 
     def adt(self, name):
@@ -182,12 +203,13 @@ class Program:
                     ch.setdefault(p, []).append(b.name)
             self._children = ch
         out = []
-        stack = [name]
+        stack = [name] + (list(self.inlined_helpers.get(name, [])) if self.inlining else [])
         while stack:
             n = stack.pop()
             for c in self._children.get(n, []):
-                out.append(c)
-                stack.append(c)
+                if c not in out:
+                    out.append(c)
+                    stack.append(c)
         return sorted(out)
 
     def bodies_in_crates(self, crates):
